@@ -490,7 +490,7 @@ def check(ctx):
     ctx.trusted = ["faster_hex::hex_encode(_upper) fails only when the destination is too small (its documented contract)", "slice::chunks(n) yields consecutive chunks of 1..=n elements in order; Zip pairs the k-th items of its two sides; chunks_exact_mut(2) yields dst[2k..2k+2]",
                    "core::fmt precision semantics"]
     ctx.assumptions = ["the SIMD encoder's digits (faster-hex, config F2) are not analysed: its documented contract is trusted", "a chunk producer that is not an iterator pipeline is reported as not decided, not as a violation"]
-    cfgs = ["F0", "F1", "F2"]  # the property quantifies over faster-hex off and on: the SIMD configuration is cheap enough for every run
+    cfgs = ["F0", "F1", "F1N", "F2"] + (["F0N", "F2N"] if ctx.tier == "thorough" else [])  # the property quantifies over faster-hex off and on: the SIMD configuration is cheap enough for every run
     ctx.need(*cfgs)
     for cfg in cfgs:
         check_generic_hex(ctx, cfg)
